@@ -38,7 +38,7 @@ SPECS = {
         assumptions=ASSUME_FILE),
     "C02": dict(
         harness="fgrid", src=["harness/fgrid.cpp"], plan=grid_plan("c02"), level="exploration",
-        rule="same grid as C01 plus seeds {'seed', 256*'y', '' (thorough: +'a', 255*'x', 304 chars, binary)}; one evaluation = execute_encrypt twice, output compared byte for byte with the libcrypto reference of the documented format, "
+        rule="same grid as C01 plus seeds {'seed', 256*'y', '', two whose SHA-1 chain has a link that begins with 0x00 (thorough: +'a', 255*'x', 304 chars, binary, two more with a 0x00-led link)} and the size argument of execute_* given exact / 0 / too large (also in C01); one evaluation = execute_encrypt twice, output compared byte for byte with the libcrypto reference of the documented format, "
              "determinism, no plaintext block in the body, input unchanged; distinct = structural class",
         assumptions=ASSUME_FILE),
 }
@@ -54,7 +54,7 @@ SPECS.update({
     "C05": dict(
         harness="ftamper", src=["harness/ftamper.cpp"], plan=tamper_plan("c05"), level="fault_enumeration",
         rule="base files made by the reference plus a third of them written by wencry's own encrypt (quick: 30 covering every cipher x hash mode, T in {1,2,4}, 6 sizes; thorough: all 270); on each, EVERY single-bit flip, every byte value at offsets 0..9, "
-             "every truncation, 6 extensions, every one-byte and 16-byte deletion/insertion, every swap of two body blocks / chunks / IV fields, the pair modification (tag byte 0 or whole tag := 0x00) x (every value of one of the last body bytes) (thorough: + header-byte x body-bit pairs); "
+             "every truncation, 6 extensions, every one-byte and 16-byte deletion/insertion, every swap of two body blocks / chunks / IV fields, the pair modification (tag byte 0 or whole tag := 0x00) x (every value of one of the last body bytes), every fourth altered copy presented straight after the genuine file was accepted - half of those altered IN PLACE (same inode, size and times) (thorough: + header-byte x body-bit pairs); "
              "plus four base files with T in {2,3,6,7} whose authenticated length mod 64 is 56/60 (two-block hash padding); "
              "one evaluation = verify + decrypt of one modified file; oracle: both fail, or both succeed with exactly the original plaintext; distinct = (modification kind, base file) classes",
         assumptions=ASSUME_FILE + ["single modifications only (plus the stated pairs); the known finding C05 hdr-byte-8 is matched by its key, any other accepted modification is a violation"]),
@@ -106,13 +106,13 @@ SPECS.update({
         assumptions=ASSUME_LIB),
     "C08": dict(
         harness="cryptolib", src=["harness/cryptolib.cpp"], plan=lib_plan("c08"), level="exploration",
-        rule="hmac::gethmac on memfd files: 5 keys x 3 hash modes x every message length 0..3R+65 x start positions (quick: 10 incl. 0,47,48,49,64; thorough: 0..80) x contents {counter, all 0xFF}; cmphmac with the right tag and with every single-bit-flipped tag; one hmac object reused over all 15 (mode,key) pairs in 8 orders must behave like fresh objects; "
+        rule="hmac::gethmac on memfd files: every key byte position x {00,7f,80,ff} on two base keys; 5 keys x 3 hash modes x every message length 0..3R+65 x start positions (quick: 10 incl. 0,47,48,49,64; thorough: 0..80) x contents {counter, all 0xFF}; cmphmac with the right tag and with every single-bit-flipped tag; one hmac object reused over all 15 (mode,key) pairs in 8 orders must behave like fresh objects; "
              "files written by execute_encrypt (T in {1,2,3,4,5,16}, 3 cipher modes, 3 hash modes, lengths 0..2*chunk+17): bytes [10,10+hlen) == HMAC of [48,EOF), [10+hlen,48) zero; oracle = OpenSSL HMAC()",
         assumptions=ASSUME_LIB + ASSUME_FILE[:1]),
     "C09": dict(
         harness="cryptolib", src=["harness/cryptolib.cpp"], plan=lib_plan("c09", sanitize="none"), level="exploration",
         rule="tables exhaustively (S-box and inverse from the GF(2^8) definition, every log/antilog product the rounds can form for the 7 MixColumns constants x 256 values, Rcon); every (key, block) that differs from a base pair "
-             "in one key byte (16x256) and one block byte (16x256) - quick: FIPS-197 C.1 base fully + 3 other bases on a 1/5 lattice, thorough: 8 bases fully = 134M pairs; all 128x128 single-bit pairs on 4 (thorough 8) bases; blocks placed at every offset 0..15 from a 16-byte boundary in turn; "
+             "in one key byte (16x256) and one block byte (16x256) - quick: FIPS-197 C.1 base fully + 3 other bases on a 1/5 lattice, thorough: 8 bases fully = 134M pairs; all 128x128 single-bit pairs on 4 (thorough 8) bases; blocks placed at every offset 0..15 from a 16-byte boundary in turn; round states: for every round 1..9, column 0..3 and 881 column patterns (5^4 over {00,01,80,ff,53} + all 256 four-equal-bytes columns) x 3 contexts, the (key, block) whose state entering MixColumns, entering InvMixColumns of the inverse cipher, or of the equivalent inverse cipher has that column (constructed with an own FIPS-197 implementation, self-checked against libcrypto); "
              "encrypt == libcrypto, decrypt(encrypt(x)) == x, decrypt == libcrypto; distinct = (base, key byte position)",
         assumptions=ASSUME_LIB + ["bounded-alphabet claim: 2^256 pairs cannot be enumerated; every table entry, byte position and single-byte data path is"]),
     "C10": dict(
@@ -146,7 +146,7 @@ SPECS.update({
         assumptions=ASSUME_FILE + ["second history: strace of the real binary (write/pwrite64/lseek on the output file), same enumeration, states given to the real Wencry -v / -d", "crash model = process death: writes reach the file in issue order, the last one possibly torn at any byte; no power-failure reordering (the property does not ask for it)"]),
     "C18": dict(
         harness="fextra", src=["harness/fextra.cpp"], plan=extra_plan("c18", bufs=(1, 2)), level="exploration",
-        rule="T=2..16 (quick: T<=4 fully, larger T on a 1/4 lattice), cipher modes 1..4, 7 seeds (empty, 1, 4, 255, 256, 304 characters, binary), plaintexts of 2T+1 chunks with (a) equal chunks (b) distinct chunks, chunk size 1 and 2 blocks; checks: IV fields pairwise distinct and seed dependent, "
+        rule="T=2..16 (quick: T<=4 fully, larger T on a 1/4 lattice), cipher modes 1..4, 11 seeds (empty, 1, 4, 255, 256, 304 characters, binary, four whose SHA-1 chain has a link beginning with 0x00), plaintexts of 2T+1 chunks with (a) equal chunks (b) distinct chunks, chunk size 1 and 2 blocks; checks: IV fields pairwise distinct and seed dependent, "
              "ciphertext seed dependent, no two streams start from the same value (equal plaintext chunks must not give equal ciphertext chunks; CTR/OFB: C_i xor C_j != P_i xor P_j); a violation is keyed by its cause "
              "(whole file equals the reference in which every stream starts from IV[0] => stream-start-iv:shared-with-stream-0)",
         assumptions=ASSUME_FILE),
@@ -172,7 +172,7 @@ def c15_extra(agg):
 SPECS.update({
     "C15": dict(
         harness="histories", src=["harness/histories.cpp"], plan=lambda tier: [dict(defs=defs(2), args=dict(mode="c15", bufsz=2, hbufsz=2), nshards=16)], level="model_checking",
-        rule="alphabet of 20 operations (13 library-level, two of them under a second key that shares its first bytes with the first, encrypt/decrypt/verify incl. failing ones and multi-chunk files whose blocks end in padding-like bytes, 7 command-line vectors incl. parses that fail early and inside a short-option cluster); ALL sequences up to depth 3 "
+        rule="alphabet of 25 operations (16 library-level: encrypt/decrypt/verify incl. failing ones, multi-chunk files whose blocks end in padding-like bytes, two under a second key that shares its first bytes with the first, a file altered / repaired IN PLACE (same inode, size, times) after an earlier operation saw it, a file read with more workers than it was written with; 9 command-line vectors incl. parses that fail early, inside a short-option cluster and on an overflowing number); ALL sequences up to depth 3 "
              "(thorough: depth 4, full alphabet), each history in one fresh forked process on the canonical schedule; differential oracle: the i-th operation observes exactly what it observes alone in a fresh process; "
              "state = canonical process-wide state after each step; distinct = (depth, first op, last op) classes",
         assumptions=ASSUME_FILE + ["random IV seed of the command-line encrypt is treated as an output: its file is checked through the reference decryptor instead of byte equality"],
